@@ -19,7 +19,7 @@ PROP = "C04"
 MANIFEST_DIMS = {
     "requirements.txt": [None, "requests>=2\nflask\n"],
     "setup.cfg": [None, ms.SETUP_CFG["multiline"], ms.SETUP_CFG["no-options"]],
-    "pyproject.toml": [None, ms.PYPROJECT["pep621-multiline"], ms.PYPROJECT["poetry"], ms.PYPROJECT["no-project"]],
+    "pyproject.toml": [None, ms.PYPROJECT["pep621-multiline"], ms.PYPROJECT["poetry"], ms.PYPROJECT["no-project"], ms.PYPROJECT["project-no-deps"]],
     "setup.py": [None, ms.SETUP_PY["multiline-trailing"], ms.SETUP_PY["no-install-requires"]],
 }
 
@@ -69,7 +69,7 @@ def project(cm_key, combo):
 
 def configs(tier):
     combos = list(manifest_combos())
-    rep = [c for c in combos if sum(1 for i in c if i) <= 1] + [(1, 1, 1, 1), (1, 2, 3, 2), (0, 1, 2, 1), (1, 0, 1, 2)]
+    rep = [c for c in combos if sum(1 for i in c if i) <= 1] + [(1, 1, 1, 1), (1, 2, 3, 2), (0, 1, 2, 1), (1, 0, 1, 2), (1, 0, 4, 0), (1, 1, 4, 2)]
     out = []
     # every manifest combination with default options, for the detector-less dependency-adding codemod
     for c in combos:
